@@ -199,3 +199,38 @@ Theorem C10_run_analysis_gen_family_peq :
 Proof. exact @run_analysis_gen_family_peq. Qed.
 
 Print Assumptions C10_run_analysis_gen_family_peq.
+
+(* ------------------------------------------------------------------------------------------------------------
+   Extension (store round): the result-storing / reading layer of the key families is REGENERATED (tools/translate_store.py
+   -> Gen/StoreGen.v: BlockTransactionContext.__init__, gtxn_context / absolute_context / relative_context, the three
+   _store_results).  From the fresh objects of Function.__init__, after the three stores every slot (b, fam) -- read back
+   through the regenerated accessors -- holds attribute by attribute the result of its own key (store_all_read_back), i.e.
+   Detect.ctx_of of the model result for every tail family, and for KSelf up to group_sizes / group_indices (ConstsGen);
+   distinct families are distinct objects (accessor_refs_distinct); outside 0..15 the accessors alias (documented). *)
+From Tealer Require Import GraphGen SolverGen RunGen StoreGen Detect RunGenLemmas StoreGenLemmas.
+
+Theorem C10_store_all_ctx_of :
+  forall (f : func) (r : fn_result) (dF : gdict feeval) (dT : gdict (list string)) (dA : gdict sset),
+    (forall b fam, In b (function_blocks f) -> In fam all_fams -> bc_get dF (key_of_fam "Fee" fam) b = Some (res_fee r fam b)) ->
+    (forall b fam, In b (function_blocks f) -> In fam all_fams -> bc_get dT (key_of_fam "TransactionType" fam) b = Some (res_types r fam b)) ->
+    (forall key b fam, In key addr_BASE_KEYS_gen -> In b (function_blocks f) -> In fam all_fams ->
+       bc_get dA (key_of_fam key fam) b = Some (res_addr r key fam b)) ->
+    exists t1 t2 t3,
+      fee_store_results_gen f dF (function_transaction_contexts_gen f) = Some t1 /\
+      type_store_results_gen f dT t1 = Some t2 /\
+      addr_store_results_gen f dA addr_BASE_KEYS_gen t2 = Some t3 /\
+      forall b, In b (function_blocks f) -> forall fam, In fam all_fams ->
+        exists o, read_slot t3 b fam = Some o /\ same_but_int o (ctx_of r b fam) /\ (fam <> KSelf -> o = ctx_of r b fam).
+Proof. exact @store_all_ctx_of. Qed.
+
+Theorem C10_families_exact : forall fam, In fam all_fams <-> famb fam = true.
+Proof. exact @all_fams_famb. Qed.
+
+Theorem C10_accessor_refs_distinct :
+  forall c, ctx_shape c -> forall fam1 fam2, In fam1 all_fams -> In fam2 all_fams ->
+    slot_ref c fam1 <> None /\ (slot_ref c fam1 = slot_ref c fam2 -> fam1 = fam2).
+Proof. exact @accessor_refs_distinct. Qed.
+
+Print Assumptions C10_store_all_ctx_of.
+Print Assumptions C10_families_exact.
+Print Assumptions C10_accessor_refs_distinct.
